@@ -290,6 +290,14 @@ Theorem C20_underconstrained_rescued_refuted :
 Proof. exact ExternalWitness.rescue_naive_refuted. Qed.
 Print Assumptions C20_underconstrained_rescued_refuted.
 
+(** ... and the rescue does not cover a state that lacks its initial value (known finding
+    C20-uninitialised-state-not-rescued): marked as external it is still reported "used in an ODE, but not initialised". *)
+Theorem C20_uninitialised_state_not_rescued :
+  option_map (fun r => (r_type r, r_issues r)) (result_of (analyse_x true sysE [])) = Some (MUnderconstrained, [mkIssue RStateNotInit (0, 1)]) /\
+  option_map (fun r => (r_type r, r_issues r)) (result_of (analyse_x true sysE mark_x)) = Some (MUnderconstrained, [mkIssue RStateNotInit (0, 1)]).
+Proof. exact ExternalWitness2.uninitialised_state_not_rescued. Qed.
+Print Assumptions C20_uninitialised_state_not_rescued.
+
 (* NOT PROVED (the strong form): if the system with the unknown classes given an initial value (i.e. as constants) is valid,
    then the system with those classes marked as external is valid — the weakest hypothesis found ("only UNUSED issues" is not
    enough: C20_underconstrained_rescued_refuted).  The two analyses run on DIFFERENT systems (the classes are INITIALISED from
